@@ -364,13 +364,13 @@ Proof.
   destruct (creatable f); [reflexivity|]. now contradiction H.
 Qed.
 
-Lemma create_fields_creatable selects omits anyk f :
-  In f (create_fields s (select_and_omit s table selects omits true false) anyk) ->
+Lemma create_fields_creatable selects omits ps f :
+  In f (create_fields s (select_and_omit s table selects omits true false) ps) ->
   In f s /\ has_col f = true /\ creatable f = true.
 Proof.
   unfold create_fields. intros H. apply in_app_or in H. destruct H as [H|H]; apply filter_In in H;
     destruct H as [Hf H]; apply in_col_fields in Hf; destruct Hf as [Hin Hc]; repeat split; auto.
-  - destruct (f_pk f); [discriminate|]. apply (allowed_creatable selects omits false); auto.
+  - destruct (db_default f); [discriminate|]. apply (allowed_creatable selects omits false); auto.
     destruct (sel_get _ (f_db f)) as [[|]|]; try discriminate; intros X; discriminate X.
   - apply andb_prop in H. destruct H as [H _]. apply andb_prop in H. destruct H as [_ H].
     apply (allowed_creatable selects omits false); auto. unfold allowed in H.
@@ -384,7 +384,7 @@ Lemma update_all_both selects omits inserted forced p c k :
 Proof.
   intros Hi H. unfold update_all_set in H. apply in_flat_map in H. destruct H as (f & Hf & H).
   destruct (Hi f Hf) as [Hin Hc].
-  destruct (allowed _ (f_db f) && negb (f_pk f) && _) eqn:E; [|contradiction].
+  destruct (allowed _ (f_db f) && negb (db_default f) && _) eqn:E; [|contradiction].
   apply andb_prop in E. destruct E as [E _]. apply andb_prop in E. destruct E as [E1 E2].
   destruct H as [H|[]]. inversion H; subst. exists f. repeat split; auto.
   - apply (allowed_creatable selects omits true); auto. unfold allowed in E1.
@@ -393,10 +393,19 @@ Proof.
     { unfold allowed in E1. destruct (sel_get _ (f_db f)) as [[|]|]; try discriminate; intros X; discriminate X. }
     rewrite sao_get, denied_field in G by auto. unfold denied in G. cbn in G.
     destruct (creatable f), (updatable f); cbn in G; auto; now contradiction G.
-  - now apply negb_true_iff in E2.
+  - apply negb_true_iff in E2. unfold db_default in E2. now apply orb_false_elim in E2.
 Qed.
 
 End WF.
+
+(* a slice model whose last element is keyed restricts to the elements' non-zero keys *)
+Lemma slice_match_spec l ks : key_match (MSlice l) ks = true -> last l 0 <> 0 ->
+  In (hd 0 ks) l /\ hd 0 ks <> 0.
+Proof.
+  cbn [key_match]. intros H Hl. apply orb_prop in H. destruct H as [H|H]; [apply Z.eqb_eq in H; congruence|].
+  apply existsb_exists in H. destruct H as (k & Hk & E). apply andb_prop in E. destruct E as [E1 E2].
+  apply negb_true_iff, Z.eqb_neq in E1. apply Z.eqb_eq in E2. subst k. auto.
+Qed.
 
 (* ---- rows ------------------------------------------------------------------------------------------------ *)
 Lemma targeted_spec stored mk wh id : In id (targeted stored mk wh) <->
@@ -414,10 +423,10 @@ Proof.
 Qed.
 
 (* key_match: every non-zero member of the model value's key equals the row's member *)
-Lemma key_match_spec mk ks : key_match mk ks = true ->
+Lemma key_match_spec mk ks : key_match (MStruct mk) ks = true ->
   forall m k, In (m, k) (combine mk ks) -> m = 0 \/ k = m.
 Proof.
-  unfold key_match. rewrite forallb_forall. intros H m k Hin. specialize (H _ Hin). cbn in H.
+  unfold key_match, struct_match. rewrite forallb_forall. intros H m k Hin. specialize (H _ Hin). cbn in H.
   apply orb_prop in H. destruct H as [H|H]; apply Z.eqb_eq in H; auto.
 Qed.
 
